@@ -1,0 +1,10 @@
+//go:build !verif
+
+package dastard
+
+import "time"
+
+func verifPoint(name string)                                   {}
+func verifSpan(name string) func()                             { return verifNoop }
+func verifDuration(name string, d time.Duration) time.Duration { return d }
+func verifNoop()                                               {}
